@@ -3,6 +3,7 @@ package rules
 import (
 	"fmt"
 	"go/ast"
+	"go/token"
 	"go/types"
 	"golang.org/x/tools/go/types/typeutil"
 	"math/big"
@@ -41,6 +42,7 @@ func checkC11(c *Ctx) {
 	}
 	c.c11ScanSkip()
 	c.c11Wiring()
+	c.c11BackendKept()
 	for _, b := range backends {
 		b := b
 		c.borrowKinds("C12", func() { c.c12Wiring(b) }, "R11.7", "New"+b.Wrapper, []string{"R12.3"}, "callback-wiring:DeleteExpired")
@@ -267,6 +269,90 @@ func (c *Ctx) c11Wiring() {
 		}
 		walk(fd.Body, false)
 	})
+	// the wait for the cleanup tick is not restarted by other periodic work: when the tick is a time.After armed inside the loop,
+	// the select that waits for it has no other case than the shutdown signal (any other wake-up re-arms the timer from zero, and
+	// with a shorter period the cleanup never fires)
+	c.eachFuncDecl(func(fd *ast.FuncDecl, fn *types.Func) {
+		if !loopCallers[fn.Origin()] {
+			return
+		}
+		name := strings.TrimPrefix(pw.FuncName(fn), "cache.")
+		ast.Inspect(fd.Body, func(x ast.Node) bool {
+			loop, ok := x.(*ast.ForStmt)
+			if !ok {
+				return true
+			}
+			ast.Inspect(loop.Body, func(y ast.Node) bool {
+				sel, ok := y.(*ast.SelectStmt)
+				if !ok {
+					return true
+				}
+				cleanupCase := -1
+				for i, cl := range sel.Body.List {
+					cc := cl.(*ast.CommClause)
+					for _, st := range cc.Body {
+						ast.Inspect(st, func(z ast.Node) bool {
+							if call, ok := z.(*ast.CallExpr); ok {
+								if callee, _ := typeutil.Callee(info, call).(*types.Func); callee != nil && callee.Origin() == cleanup.Origin() {
+									cleanupCase = i
+								}
+							}
+							return true
+						})
+					}
+				}
+				if cleanupCase < 0 {
+					return true
+				}
+				// is a timer armed per iteration? (time.After anywhere in the loop body)
+				armedInLoop := false
+				ast.Inspect(loop.Body, func(z ast.Node) bool {
+					if call, ok := z.(*ast.CallExpr); ok {
+						if callee, _ := typeutil.Callee(info, call).(*types.Func); callee != nil && callee.Pkg() != nil && callee.Pkg().Path() == "time" && (callee.Name() == "After" || callee.Name() == "NewTimer") {
+							armedInLoop = true
+						}
+					}
+					return true
+				})
+				if !armedInLoop {
+					return true
+				}
+				for i, cl := range sel.Body.List {
+					if i == cleanupCase {
+						continue
+					}
+					cc := cl.(*ast.CommClause)
+					okCase := false
+					if cc.Comm != nil {
+						var rx ast.Expr
+						switch st := cc.Comm.(type) {
+						case *ast.ExprStmt:
+							rx = st.X
+						case *ast.AssignStmt:
+							if len(st.Rhs) == 1 {
+								rx = st.Rhs[0]
+							}
+						}
+						if ue, ok := ast.Unparen(rx).(*ast.UnaryExpr); ok && ue.Op == token.ARROW {
+							if fs, ok := ast.Unparen(ue.X).(*ast.SelectorExpr); ok && fs.Sel.Name == "Closed" {
+								okCase = true
+							}
+							if call, ok := ast.Unparen(ue.X).(*ast.CallExpr); ok {
+								if fs, ok := call.Fun.(*ast.SelectorExpr); ok && fs.Sel.Name == "Done" {
+									okCase = true
+								}
+							}
+						}
+					}
+					if !okCase {
+						r.Bad("R11.7", name, "cleanup-timer-rearmed", c.Pos(cc.Pos()), "the select that waits for the cleanup tick (a timer armed on every loop iteration) also wakes up for other work: every such wake-up restarts the cleanup timer, with a shorter period no cleanup cycle ever runs", nil)
+					}
+				}
+				return true
+			})
+			return false
+		})
+	})
 	if len(loopCallers) == 0 {
 		r.Bad("R11.7", "Trait.invokeCleanup", "no-cleanup-loop", "-", "no function calls invokeCleanup from inside a loop: cleanup cycles never repeat", nil)
 		return
@@ -320,6 +406,49 @@ func (c *Ctx) c11Wiring() {
 		r.Bad("R11.7", ctor, "janitor-never-started", "-", "no path of the constructor starts the cleanup goroutine", nil)
 	} else if !bad {
 		r.OK("R11.7", ctor, fmt.Sprintf("%d paths start the cleanup loop, %d have no callback installed", nStart, nNone))
+	}
+}
+
+// c11BackendKept: the default backend a Failover creates is kept as the constructor returned it: the exported wrapper carries the
+// finalizer that stops the janitor, so holding only its inner implementation lets the first GC stop all cleanup cycles.
+func (c *Ctx) c11BackendKept() {
+	r := c.R
+	for _, sib := range siblings {
+		ctor := "New" + sib
+		_, paths, _, err := c.runFunc(ctor, pw.Policy{Inline: inlineUnexported, MaxDepth: 2})
+		if err != nil {
+			r.Unknown("R11.7", ctor, err.Error())
+			continue
+		}
+		n, bad := 0, false
+		for _, p := range paths {
+			for _, ev := range p.Events {
+				if ev.Kind != pw.EvCall || !strings.HasPrefix(ev.Role, "Repo:NewShardedMap") && !strings.HasPrefix(ev.Role, "Repo:NewSyncMap") || len(ev.Results) != 1 {
+					continue
+				}
+				res := ev.Results[0]
+				// where does the result go? every field write whose value derives from it must be the result itself
+				for _, w := range p.Events {
+					if w.Kind != pw.EvFieldWrite || w.Value == nil || w.Value == res {
+						if w.Kind == pw.EvFieldWrite && w.Value == res {
+							n++
+						}
+						continue
+					}
+					for x, i := w.Value, 0; x != nil && i < 4; x, i = x.Src, i+1 {
+						if x == res && !bad {
+							bad = true
+							r.Bad("R11.7", ctor, "backend-unwrapped", c.Pos(w.Pos), "the frontend keeps a part of the backend it created ("+w.Value.String()+") instead of the value the constructor returned: the wrapper with the janitor's finalizer becomes garbage", shortTrace(p))
+						}
+					}
+				}
+			}
+		}
+		if n == 0 && !bad {
+			r.Unknown("R11.7", ctor, "no store of a constructed backend found")
+		} else if !bad {
+			r.OK("R11.7", ctor, fmt.Sprintf("%d stores keep the constructed backend as returned", n))
+		}
 	}
 }
 
